@@ -3,6 +3,7 @@
 from __future__ import annotations
 
 # Standard Library Imports
+from datetime import datetime, timedelta
 from typing import TYPE_CHECKING
 
 # Third Party Imports
@@ -23,7 +24,7 @@ from ..physics.bodies.gravitational_potential import (
 from ..physics.maths import rot3
 from ..physics.sensor_utils import calculateSunVizFraction
 from ..physics.time.conversions import dayOfYear, greenwichApparentTime
-from ..physics.time.stardate import JulianDate, julianDateToDatetime
+from ..physics.time.stardate import JulianDate
 from ..physics.transforms.reductions import ReductionParams
 from .celestial import Celestial, checkEarthCollision
 
@@ -102,7 +103,13 @@ class SpecialPerturbations(Celestial):
 
         # Calculate the ECI - ECEF transformation for the integration time
         julian_date = JulianDate(self.init_julian_date + time / 86400)
-        _datetime = julianDateToDatetime(julian_date)
+        # [NOTE]: Build the datetime from the same (unrounded) calendar fields that the sidereal angle in
+        #   `_getRotationMatrix()` uses, so that both refer to the same UTC day. Rounding to the nearest
+        #   second would select the next day's Earth orientation data during the last half second of a day.
+        year, month, day, hours, minutes, seconds = julian_date.calendar_date
+        _datetime = datetime(year, month, day, int(hours), int(minutes)) + timedelta(
+            seconds=float(seconds),
+        )
         ecef_2_eci = _getRotationMatrix(julian_date, ReductionParams.build(_datetime))
 
         # Get third body positions
